@@ -397,7 +397,13 @@ func genC19(rt *rapid.T, statuses []int) c19Case {
 			for c19Success[st] {
 				st = 500
 			}
-			m.Replies = append(m.Replies, c19Reply{Status: st, HoldMs: rapid.SampledFrom([]int{0, 0, 5, 40}).Draw(rt, "hold")})
+			fr := c19Reply{Status: st, HoldMs: rapid.SampledFrom([]int{0, 0, 5, 40}).Draw(rt, "hold")}
+			// a failure may be slow as well: the answer still decides, not the time it took
+			if slowLeft > 0 && rapid.IntRange(0, 7).Draw(rt, "slowfail") == 0 {
+				fr.Slow = true
+				slowLeft--
+			}
+			m.Replies = append(m.Replies, fr)
 		}
 		ok := c19Reply{Status: rapid.SampledFrom([]int{200, 200, 201, 202, 204, 102}).Draw(rt, "okstatus"), HoldMs: rapid.SampledFrom([]int{0, 0, 5, 40, 120}).Draw(rt, "hold")}
 		if slowLeft > 0 && rapid.IntRange(0, 9).Draw(rt, "slow") == 0 {
